@@ -202,6 +202,8 @@ class BVal:
 def abstract_val(v):
     if v is INV or v == INV:
         return ['inv']
+    if v is None:
+        return ['n']
     if isinstance(v, BVal):
         return ['b'] + list(v.path)
     if v is VDEFAULT:
@@ -214,12 +216,12 @@ def abstract_val(v):
 
 
 class MDict:
-    """Match-mode dict with one key / value spec pair, fed with {'K': target}"""
-    def __init__(self, path, k, v):
-        self.path, self.d = tuple(path), {k: v}
+    """Match-mode dict with one key / value spec pair, fed with {'K': target} (two=True: {'K': t, 'L': t})"""
+    def __init__(self, path, k, v, two=False):
+        self.path, self.d, self.two = tuple(path), {k: v}, two
 
     def glomit(self, target, scope):
-        r = scope[GLOM]({'K': target}, self.d, scope)
+        r = scope[GLOM]({'K': target, 'L': target} if self.two else {'K': target}, self.d, scope)
         return r
 
     def __repr__(self):
@@ -271,6 +273,13 @@ def build(tree, run, path=(), index=None):
         s = S(**{a: v})
         if index is not None:
             index[id(v)] = path + (0,)
+    elif k == 'nbind':
+        v = Val(None)
+        s = S(**{a: v})
+        if index is not None:
+            index[id(v)] = path + (0,)
+    elif k == 'sbind2':
+        s = S(x=Val(BVal(path)), y=Coalesce(S.x, default=Val(INV)))
     elif k == 'abind':
         s = getattr(A, a)
     elif k == 'gbind':
@@ -304,8 +313,8 @@ def build(tree, run, path=(), index=None):
         s = Not(child(0))
     elif k == 'switch':
         s = Switch([(child(2 * i), child(2 * i + 1)) for i in range(len(c) // 2)])
-    elif k == 'mdict':
-        s = MDict(path, child(0), child(1))
+    elif k in ('mdict', 'mdict2'):
+        s = MDict(path, child(0), child(1), two=(k == 'mdict2'))
         if index is not None:
             index[id(s.d)] = path + (0,)
     else:
